@@ -129,15 +129,16 @@ impl Sub for Weekday {
 impl Add<u8> for Weekday {
     type Output = Self;
     fn add(self, rhs: u8) -> Self {
-        Self::from(u8::from(self) + rhs)
+        // Reduce first: u8::from(self) + rhs overflows for rhs > 249.
+        Self::from(u8::from(self) + rhs % Self::MAX)
     }
 }
 
 impl Sub<u8> for Weekday {
     type Output = Self;
     fn sub(self, rhs: u8) -> Self {
-        // We can safely cast the weekdays as u8 into i8 because the maximum value is 6, and the max value of a i8 is 127.
-        Self::from(u8::from(self) as i8 - rhs as i8)
+        // Going back rhs days is going forward 7 - (rhs mod 7) days; casting rhs to i8 is wrong above 127.
+        Self::from(u8::from(self) + Self::MAX - rhs % Self::MAX)
     }
 }
 
